@@ -258,6 +258,9 @@ GUARD_TIE = {
     "C11": "every update statement of in_generations (which attribute is divided, in which loops)",
     "C14": "predecessors / successors (compiled whole into folds) and the four classification tests of discrete_demographic_events in the source",
     "C15": "every update statement of rename_demes and its three rejections",
+    "C17": "the context manager _open_file_polymorph (open fallback, what is yielded, the except/else/finally clauses) and the bodies of all eight load/dump entry points (with-blocks, staging, yields, closes), translated into a statement language whose meaning is the Model's control flow,",
+    "C19": "the bodies of ParseCommand.__call__, MsCommand.__call__ and cli() (which library call with which keyword arguments writes to stdout, the look-ahead of load_and_count_documents, the mutually exclusive group, the absence of any exception handler), translated into a statement language whose meaning is the Model's dispatch,",
+    "C20": "the loop nests of _check_migration_rates, in_generations and asdict (functional tie with the Model's step counts), the loop tables of migration_matrices and of the symmetric search, and which dictionary form dump / dump_all compute",
     "C16": "_no_null_values with its nested helpers (compiled into recursive equations), the tests of _stringify/_unstringify_infinities and the order of helper / codec / resolver calls of every entry point of load_dump.py",
 }
 
